@@ -348,7 +348,8 @@ inline int selftest_scrypt() {
           "77d6576238657b203b19ca42c18a0497f16b4844e3074ae8dfdffa3fede21442fcd0069ded0948f8326a753a0fc81f17e8d3e0fb2e0d3628cf35e20c38d18906");
     t.eqh("rfc7914 s12 #2", scrypt(str("password"), str("NaCl"), 1024, 8, 16, 64),
           "fdbabe1c9d3472007856e7190d01e9fe7c6ad7cbc8237830e77376634b3731622eaf30d92e22a3886ff109279d9830dac727afb94a83ee6d8360cbdfa2cc0640");
-    // (vector 3, N = 16384 r = 8: 16 MiB, left out of the self-test to keep it fast; it was checked once at development time)
+    t.eqh("rfc7914 s12 #3", scrypt(str("pleaseletmein"), str("SodiumChloride"), 16384, 8, 1, 64),
+          "7023bdcb3afd7348461c06cd81fd38ebfda8fbba904f8e3ea9b543f6545da1f2d5432955613f0fcf62d49705242a9af9e61e85dc0d651e40dfcf017b45575887");
 
     // Development-time KATs generated with python3 hashlib.scrypt (OpenSSL EVP_PBE_scrypt):
     //   hashlib.scrypt(pat(pwlen,8), salt=pat(saltlen,9), n=N, r=r, p=p, dklen=dklen)
